@@ -258,8 +258,23 @@ def run_property(pid, tier, seed):
             payload.update({'property': pid, 'kind': 'conformance',
                             'kind_of_replay': 'workload item re-run on the real code under the run-time monitor of the '
                                               'contract clause'})
+            # the verifier's refutation of the same clause, if it had no input of its own, is carried by this file
+            ck = core.clause_key(v['clause'])
+            for dv in violations:
+                if not dv['found'] and dv['clause'] == ck:
+                    try:
+                        payload['deductive_refutation'] = json.load(open(dv['replay']))
+                    except Exception:
+                        pass
+                    dv['superseded'] = True
             p = core.write_replay(pid, v['clause'], payload)
             violations.append({'clause': v['clause'], 'replay': p, 'found': True})
+    for dv in [x for x in violations if x.get('superseded')]:
+        try:
+            os.remove(dv['replay'])
+        except OSError:
+            pass
+    violations = [x for x in violations if not x.get('superseded')]
     # a proof-level refutation without its own input is superseded by a concrete input if the floor found one
     if any(v['found'] for v in violations):
         for v in violations:
